@@ -131,6 +131,21 @@ impl Gad {
     }
 }
 
+/// Role-free adversary: every wire as the gadget's own witness generation
+/// computes it for OTHER inputs, with the input witnesses `inputs` put back to
+/// this circuit's values. Returns None when the two builds do not share the
+/// layout.
+pub fn transplant(target: &Gad, other: &Gad, inputs: &[usize]) -> Option<Vec<F>> {
+    if target.layout != other.layout || target.wit.len() != other.wit.len() {
+        return None;
+    }
+    let mut a = other.wit.clone();
+    for i in inputs {
+        a[*i] = target.wit[*i];
+    }
+    Some(a)
+}
+
 /// Evaluator and real prover must agree on an assignment (sampled
 /// cross-validation of the oracle itself).
 pub fn cross_check(g: &Gad, assignment: &[F], seed: u64, what: &str) -> Result<(), Fail> {
